@@ -38,11 +38,10 @@ Lemma parse_op_loop_eq f d prec lhs ts :
           parse_primary tbl tm f d ts2 >>= fun '(rhs, ts3) =>
           (if cur_is_not ts3 then next_prec tbl tm ts3 else Ok (cur_prec tbl ts3)) >>= fun '(cur_l_bp, _) =>
           (if (r_bp <? cur_l_bp)%Z then parse_op tbl tm f d r_bp rhs ts3 else Ok (rhs, ts3)) >>= fun '(rhs', ts4) =>
-          if MAX_DEPTH <? d + 1 then Err else
           let node := ABinary op lhs rhs' in
           let node' := if isnot then AUnary s_not node else node in
           built node' ts4 >>= fun '(node'', ts5) =>
-          parse_op_loop tbl tm f (d + 1) prec node'' ts5
+          parse_op_loop tbl tm f d prec node'' ts5
     | _ => Ok (lhs, ts)
     end.
 Proof. reflexivity. Qed.
@@ -104,12 +103,12 @@ Lemma loop_fold f d prec lhs cur rest rhs ts3 rhs' ts4 :
   (if (snd (binding_power tbl cur) <? fst (cur_prec tbl ts3))%Z
    then parse_op tbl tm f d (snd (binding_power tbl cur)) rhs ts3 else Ok (rhs, ts3)) = Ok (rhs', ts4) ->
   (MAX_DEPTH <? d + 1) = false -> (MAX_DEPTH <? ast_height (ABinary cur lhs rhs')) = false ->
-  parse_op_loop tbl tm (S f) d prec lhs (TOp cur :: rest) = parse_op_loop tbl tm f (d + 1) prec (ABinary cur lhs rhs') ts4.
+  parse_op_loop tbl tm (S f) d prec lhs (TOp cur :: rest) = parse_op_loop tbl tm f d prec (ABinary cur lhs rhs') ts4.
 Proof.
   intros (N & Q & _) L P NN G D H. unfold R in *. rewrite parse_op_loop_eq. cbn zeta. rewrite N. cbn [bind cur_prec hd_error tok_prec].
   destruct (binding_power tbl cur) as [l r]. cbn [fst snd] in *. cbn [andb negb]. rewrite Q, L. cbn [bind].
   rewrite advance_eof. cbn [bind]. rewrite P. cbn [bind]. rewrite NN. cbn [bind].
-  destruct (cur_prec tbl ts3) as [cl cr]. cbn [fst] in G. rewrite G. cbn [bind]. rewrite D.
+  destruct (cur_prec tbl ts3) as [cl cr]. cbn [fst] in G. rewrite G. cbn [bind].
   unfold built. rewrite H. cbn [bind]. reflexivity.
 Qed.
 
@@ -121,7 +120,7 @@ Lemma loop_fold_not f d prec lhs cur rest rhs ts3 rhs' ts4 :
    then parse_op tbl tm f d (snd (binding_power tbl cur)) rhs ts3 else Ok (rhs, ts3)) = Ok (rhs', ts4) ->
   (MAX_DEPTH <? d + 1) = false -> (MAX_DEPTH <? ast_height (AUnary s_not (ABinary cur lhs rhs'))) = false ->
   parse_op_loop tbl tm (S f) d prec lhs (TOp s_not :: TOp cur :: rest) =
-  parse_op_loop tbl tm f (d + 1) prec (AUnary s_not (ABinary cur lhs rhs')) ts4.
+  parse_op_loop tbl tm f d prec (AUnary s_not (ABinary cur lhs rhs')) ts4.
 Proof.
   intros (N & Q & _) L Z P NN G D H. unfold R in *. rewrite parse_op_loop_eq. cbn zeta.
   assert (E: is_not s_not = true) by reflexivity. rewrite E.
@@ -129,7 +128,7 @@ Proof.
   destruct (binding_power tbl cur) as [l r]. cbn [fst snd] in *.
   assert (Zn: (l <? 0)%Z = false) by (apply Z.ltb_ge; apply Z.leb_le; exact Z). rewrite Zn. cbn [andb negb]. rewrite L. cbn [bind].
   rewrite advance_eof. cbn [bind]. rewrite advance_eof. cbn [bind]. rewrite P. cbn [bind]. rewrite NN. cbn [bind].
-  destruct (cur_prec tbl ts3) as [cl cr]. cbn [fst] in G. rewrite G. cbn [bind]. rewrite D.
+  destruct (cur_prec tbl ts3) as [cl cr]. cbn [fst] in G. rewrite G. cbn [bind].
   unfold built. rewrite H. cbn [bind]. reflexivity.
 Qed.
 
@@ -141,13 +140,13 @@ Lemma loop_fold_gen f d prec lhs cur rest rhs ts3 rhs' ts4 :
      if (snd (binding_power tbl cur) <? cl)%Z then parse_op tbl tm f d (snd (binding_power tbl cur)) rhs ts3 else Ok (rhs, ts3))
     = Ok (rhs', ts4) ->
   (MAX_DEPTH <? d + 1) = false -> (MAX_DEPTH <? ast_height (ABinary cur lhs rhs')) = false ->
-  parse_op_loop tbl tm (S f) d prec lhs (TOp cur :: rest) = parse_op_loop tbl tm f (d + 1) prec (ABinary cur lhs rhs') ts4.
+  parse_op_loop tbl tm (S f) d prec lhs (TOp cur :: rest) = parse_op_loop tbl tm f d prec (ABinary cur lhs rhs') ts4.
 Proof.
   intros (N & Q & _) L P G D H. unfold R in *. rewrite parse_op_loop_eq. cbn zeta. rewrite N. cbn [bind cur_prec hd_error tok_prec].
   destruct (binding_power tbl cur) as [l r]. cbn [fst snd] in *. cbn [andb negb]. rewrite Q, L. cbn [bind].
   rewrite advance_eof. cbn [bind]. rewrite P. cbn [bind].
   destruct (if cur_is_not ts3 then next_prec tbl tm ts3 else Ok (cur_prec tbl ts3)) as [[cl cr]| | |]; cbn [bind] in G |- *; try discriminate.
-  rewrite G. cbn [bind]. rewrite D. unfold built. rewrite H. cbn [bind]. reflexivity.
+  rewrite G. cbn [bind]. unfold built. rewrite H. cbn [bind]. reflexivity.
 Qed.
 
 (* the conditional at the outermost level: condition = everything folded so far; both branches are full expressions *)
